@@ -292,6 +292,9 @@ func (t *template) Load(filename string) Template {
 
 	// Load the template with front-matter and raw template bytes
 	tpl.frontMatter, tpl.templateBytes, tpl.err = t.vue.loader.loadFragment(filename)
+	if tpl.err != nil {
+		t.vue.dropCached(filename)
+	}
 	tpl.filename = filename
 	tpl.filenameLoaded = true
 
